@@ -220,6 +220,9 @@ RES = {
     # bit 0x02 contradicts the value type: the format forces it (set for inline values, clear for data blocks);
     # everything else must survive.  A ValueError from save() is accepted as a refusal.
     'inconsistent': [('bytes', b'in1', 0x00, 'int', 0x60), ('bytes', b'in2', 0x42, 'bytes', b'blk')],
+    # custom IDs are three arbitrary bytes: trailing and leading NULs belong to the ID (Valve's own IDs look like b'\x01\0\0')
+    'nul_ids': [('bytes', b'XY\x00', 0x00, 'bytes', b'first'), ('bytes', b'\x20\x00\x00', 0x02, 'int', 9), ('bytes', b'\x00\x00Z', 0x00, 'bytes', b'third'),
+                ('bytes', b'XY ', 0x00, 'bytes', b'fourth')],
     'order': [('bytes', b'zzz', 0x00, 'bytes', b'last-first'), ('enum', 'LOD_SETTINGS', 0x02, 'int', 0x0201),
               ('bytes', b'\x02aa', 0x00, 'bytes', b'x' * 300), ('enum', 'EXTRA_FLAGS', 0x02, 'int', 1)],
 }
@@ -241,6 +244,9 @@ SHEETS = {
     'two_ft': [(3, False, 2.0, [_sframe(4)]), (2, True, 0.0, [_sframe(5), _sframe(6), _sframe(7)])],
     'noframes': [(5, True, 0.0, [])],
     'last': [(63, True, 8.0, [_sframe(3)])],
+    # rectangles equal as numbers but not as stored floats (a mirrored cell computed as -left): 0.0 first, then -0.0, and the reverse
+    'negzero': [(0, False, 1.0, [[0.5, [[0.0, 0.25, 0.5, 1.0], [-0.0, 0.25, 0.5, 1.0], [0.0, 0.25, 0.5, 1.0], [0.0, -0.0, 0.5, 1.0]]]]),
+                (1, True, 2.0, [[0.25, [[-0.0, -0.0, 1.0, 1.0], [0.0, 0.0, 1.0, 1.0], [-0.0, 0.0, 1.0, 1.0], [0.0, -0.0, 1.0, 1.0]]]])],
     'all64': [(n, n % 2 == 0, 0.5 + n, [_sframe(n % 5)]) for n in range(64)],     # the format's maximum number of sequences
 }
 
@@ -349,7 +355,8 @@ def norm_sheets(sheets: dict) -> dict:
     for num, seq in sheets.items():
         frames = []
         for fr in seq.frames:
-            frames.append((fr[0], tuple((t.left, t.top, t.right, t.bottom) for t in fr[1:])))
+            # (repr: the stored float exactly, -0.0 and 0.0 are different values of the file)
+            frames.append((fr[0], tuple((repr(t.left), repr(t.top), repr(t.right), repr(t.bottom)) for t in fr[1:])))
         out[num] = (seq.clamp if isinstance(seq.clamp, bool) else repr(seq.clamp), seq.duration, tuple(frames))
     return out
 
@@ -667,7 +674,7 @@ def check_case(acc: core.Acc, dev: dict) -> None:
         for num, clamp, dur, frames in sheets_spec:
             fl = []
             for fd, coords in frames:
-                cs = [tuple(c) for c in coords]
+                cs = [tuple(repr(f32(x)) for x in c) for c in coords]
                 if cfg['sheetver'] == 0:
                     cs = [cs[0]] * 4      # version 0 stores one coordinate set per frame
                 fl.append((fd, tuple(cs)))
@@ -960,6 +967,52 @@ def check_filters(acc: core.Acc, w: int, h: int) -> None:
                 acc.fail('read_error', case, f'{w}x{h} pyramid generated with {mode.name}: save/read raised {type(exc).__name__}: {exc}', exc=type(exc).__name__)
 
 
+RESCALE_SRC = [(8, 4), (4, 8), (8, 8), (2, 4), (4, 2), (4, 1), (1, 4), (16, 2), (2, 2), (1, 1), (6, 4)]
+
+
+def check_rescale_pairs(acc: core.Acc) -> None:
+    """Frame.rescale_from(larger, filter) between frames of two different textures: every source size of RESCALE_SRC x every
+    allowed target (each dimension the same or exactly half) x every FilterMode, against the block rule (the named corner of the
+    1x1 / 2x1 / 1x2 / 2x2 parent block, or its mean)."""
+    from srctools.vtf import FilterMode
+    for pw, ph in RESCALE_SRC:
+        src = bytes(((x * 37 + y * 101 + c * 53) % 251) + (4 if c == 3 else 0) for y in range(ph) for x in range(pw) for c in range(4))
+        for cw in sorted({pw, pw // 2} - {0}):
+            for ch in sorted({ph, ph // 2} - {0}):
+                if (cw != pw and 2 * cw != pw) or (ch != ph and 2 * ch != ph):
+                    continue
+                for mode in FilterMode:
+                    acc.evaluations += 1
+                    acc.nontrivial += 1
+                    case = {'rescale': [pw, ph, cw, ch], 'filter': mode.name}
+                    try:
+                        a = VTF(pw, ph, fmt=ImageFormats.RGBA8888, thumb_fmt=ImageFormats.NONE) if pw & (pw - 1) == 0 and ph & (ph - 1) == 0 else None
+                        if a is None:
+                            continue        # texture sizes are powers of two
+                        b = VTF(cw, ch, fmt=ImageFormats.RGBA8888, thumb_fmt=ImageFormats.NONE)
+                        a.get().copy_from(src, ImageFormats.RGBA8888)
+                        b.get().rescale_from(a.get(), mode)
+                        got = frame_bytes(b.get())
+                    except Exception as exc:  # noqa: BLE001
+                        acc.fail('regen_error', case, f'{cw}x{ch}.rescale_from({pw}x{ph}, {mode.name}) raised {type(exc).__name__}: {exc}', exc=type(exc).__name__)
+                        continue
+                    fx, fy = pw // cw, ph // ch
+                    if mode.name in ('BILINEAR', 'AVERAGE'):
+                        msg = check_mip_mean(src, pw, ph, got, cw, ch)
+                    else:
+                        ox, oy = CORNER['UPPER_LEFT' if mode.name == 'NEAREST' else mode.name]
+                        msg = None
+                        for y in range(ch):
+                            for x in range(cw):
+                                sx, sy = fx * x + (ox if fx == 2 else 0), fy * y + (oy if fy == 2 else 0)
+                                want = src[4 * (sy * pw + sx):4 * (sy * pw + sx) + 4]
+                                g = got[4 * (y * cw + x):4 * (y * cw + x) + 4]
+                                if g != want and msg is None:
+                                    msg = f'pixel ({x}, {y}) is {tuple(g)}, the {mode.name} pixel of its {fx}x{fy} parent block is {tuple(want)}'
+                    if msg:
+                        acc.fail('mip_filter', case, f'{cw}x{ch}.rescale_from({pw}x{ph} frame of another texture, {mode.name}): {msg}', mode=mode.name)
+
+
 def check_clear_levels(acc: core.Acc, w: int, h: int) -> None:
     """Frame.clear() on every subset of the levels below the top one of a stored pyramid: on save / compute_mipmaps each cleared
     level is regenerated from the level above it (documented on Frame.clear), the others keep their own content."""
@@ -1050,6 +1103,7 @@ def shard(cases: list) -> core.Acc:
             check_filters(acc, *m['filter_size'])
         elif 'fill' in m:
             check_fill(acc)
+            check_rescale_pairs(acc)
         elif 'clear_size' in m:
             check_clear_levels(acc, *m['clear_size'])
         else:
@@ -1077,7 +1131,7 @@ def run(ctx: core.Ctx) -> None:
         f'configurations = records over {len(BASE)} dimensions (w, h in {SIZES}; frames; depth; cubemap; version 7.2-7.5; '
         f'{len(WRITABLE)} writable main formats; NONE + {len(WRITABLE)} thumbnail formats; {len(RES)} resource sets; {len(SHEETS)} sheet sets x '
         f'sheet version 0/1; each of the 31 non-ENVMAP flag bits; mips generated/explicit; pixel phase; reflectivity; bump scale; '
-        f'first frame; save(version=) override; clear_mipmaps(after)+compute_mipmaps on the re-read file); compute_mipmaps(filter) for every FilterMode on 8 sizes against the documented corner / mean rule; Frame.fill independence; every subset of the lower levels of a stored pyramid cleared with Frame.clear() then regenerated by compute_mipmaps() / save().  Enumerated: every record deviating from the base '
+        f'first frame; save(version=) override; clear_mipmaps(after)+compute_mipmaps on the re-read file); compute_mipmaps(filter) for every FilterMode on 8 sizes against the documented corner / mean rule; Frame.rescale_from between frames of two textures for 10 source sizes x every allowed target x every FilterMode; Frame.fill independence; every subset of the lower levels of a stored pyramid cleared with Frame.clear() then regenerated by compute_mipmaps() / save().  Enumerated: every record deviating from the base '
         f'(4x4, 1 frame, RGBA8888, no thumbnail, 7.5) in <= {d} dimensions, each to every alternative value, and in <= {d + 2} dimensions '
         f'over a reduced menu of boundary values ({sum(len(v) for v in ALTS_DEEP.values())} values in {len(ALTS_DEEP)} dimensions)'
         + ('' if ctx.quick else f', and in <= 4 dimensions over a medium menu ({sum(len(v) for v in ALTS_MID.values())} values in {len(ALTS_MID)} dimensions)') +
@@ -1097,6 +1151,9 @@ def run(ctx: core.Ctx) -> None:
 
 def replay(case: dict) -> list:
     acc = core.Acc()
+    if 'rescale' in case:
+        check_rescale_pairs(acc)
+        return [f for f in acc.all_failures() if f.case.get('rescale') == case['rescale'] and f.case.get('filter') == case['filter']]
     if 'filter' in case:
         check_filters(acc, case['w'], case['h'])
         return [f for f in acc.all_failures() if f.case.get('filter') == case['filter']]
